@@ -482,6 +482,63 @@ theorem run_wf (ops : List Op) : ∀ s : State, WF s → AdmissibleRun s ops →
     intro s h ha
     exact ih (step s o) (step_wf s o h ha.1) ha.2
 
+/-- `wfB` (evaluated by the driver on real states) decides `WF` -/
+theorem wfB_iff (s : State) : wfB s = true ↔ WF s := by
+  simp only [wfB, WF, LinkInv, boundedB, Bool.and_eq_true, decide_eq_true_eq, List.all_eq_true, and_assoc]
+  constructor
+  · rintro ⟨a, b, c⟩
+    refine ⟨a, b, fun x hx g hg => ?_⟩
+    have := c x hx
+    rw [hg] at this
+    simpa using this
+  · rintro ⟨a, b, c⟩
+    refine ⟨a, b, fun x hx => ?_⟩
+    cases h : s.σ.astF x with
+    | none => rfl
+    | some g => simpa using c x hx g h
+
+private theorem freshB_spec (σ : Store) (l : List Nat) (h : freshB σ l = true) :
+    l.Nodup ∧ ∀ x ∈ l, σ.astF x = none := by
+  simp only [freshB, Bool.and_eq_true, decide_eq_true_eq, List.all_eq_true, Option.isNone_iff_eq_none] at h
+  exact h
+
+/-- `admissibleB` (evaluated by the driver on real calls) implies `Admissible` -/
+theorem admissibleB_sound (s : State) (o : Op) (h : admissibleB s o = true) : Admissible s o := by
+  cases o with
+  | setAst f new v u =>
+    simp only [admissibleB, Bool.and_eq_true, Bool.not_eq_true'] at h
+    obtain ⟨⟨hv, hu⟩, hm⟩ := h
+    cases hfo : ((s.σ.fst f).a).bind (fun i => findId i s.root) with
+    | none => simp [hfo] at hm
+    | some old =>
+      simp only [hfo, Bool.and_eq_true, beq_iff_eq, bne_iff_ne] at hm
+      obtain ⟨i, _, hfi⟩ := Option.bind_eq_some_iff.mp hfo
+      have hid := (findId_some s.root i old hfi).1
+      rw [← hid] at hfi
+      obtain ⟨hn, hfr⟩ := freshB_spec _ _ hm.2
+      exact ⟨hv, hu, old, hfi, hm.1.1, hm.1.2, hn, hfr⟩
+  | setField f name l new v u =>
+    simp only [admissibleB, Bool.and_eq_true, Bool.not_eq_true'] at h
+    obtain ⟨⟨hv, hu⟩, hm⟩ := h
+    cases hfo : ((s.σ.fst f).a).bind (fun i => findId i s.root) with
+    | none => simp [hfo] at hm
+    | some P =>
+      simp only [hfo, Bool.and_eq_true, beq_iff_eq] at hm
+      obtain ⟨i, _, hfi⟩ := Option.bind_eq_some_iff.mp hfo
+      have hid := (findId_some s.root i P hfi).1
+      rw [← hid] at hfi
+      obtain ⟨hn, hfr⟩ := freshB_spec _ _ hm.2
+      exact ⟨hv, hu, P, hfi, hm.1, hn, hfr⟩
+  | touch f => trivial
+  | touchall f p sf c => simp [admissibleB] at h
+
+/-- **step_wfB**: the executable form the correspondence uses: if the driver reports `wfB` for the state before a call
+and `admissibleB` for the call, then `wfB` (in particular the link invariant `linkInvB`) holds for the model's state
+after it — so on such a call any disagreement between the implementation's graph and the invariant is a disagreement
+with the model. -/
+theorem step_wfB (s : State) (o : Op) (h : wfB s = true) (ha : admissibleB s o = true) : wfB (step s o) = true :=
+  (wfB_iff _).mpr (step_wf s o ((wfB_iff s).mp h) (admissibleB_sound s o ha))
+
 /-- **slicePut_flushes_children** (repaired C02-F1 call site): the tail of a slice put to `Call` / `ClassDef` /
 `MatchClass` leaves every direct child that has an FST with an empty cache, changes no link, and keeps LinkInv. -/
 theorem slicePut_flushes_children (s : State) (l : List Ast) :
